@@ -187,7 +187,9 @@ impl<'t, 'a> FnGen<'t, 'a> {
 
     fn define(&mut self) -> Stmt {
         let name = self.fresh();
-        let np = 1 + self.t.weighted(&[45, 30, 15, 10]);
+        let np = 1 + self.t.weighted(&[45, 30, 14, 9, 2]);
+        // now and then more parameters than the interpreter's inline argument capacity (8)
+        let np = if np == 5 { 8 + self.t.pick(4) } else { np };
         let mut params: Vec<Name> = vec![];
         for _ in 0..np {
             // a parameter may shadow a global
